@@ -42,14 +42,15 @@ package basestore
 // controller, and re-encodes to its claimed hash; a hash mismatch returns an error and starts nothing.
 //@ func (*BaseStore).Sync
 //@   props C12 C04 C03 C10
+//@   safety C12
 //@   flag nilcalls
 //@   requires b.identity != nil && b.access != nil && b.options != nil && b.replicator != nil
 //@   requires b.tracer != nil && b.options.IO != nil
 //@   loop 1 invariant len(verified) <= $i
-//@   loop 1 invariant forall j Int :: 0 <= j && j < len(verified) ==> verified[j] != nil && ref(verified[j]) != 0
-//@   loop 1 invariant forall j Int :: 0 <= j && j < len(verified) ==> canAppendOK(b.access, verified[j]) && cidStr(contentHash(verified[j])) == hs(verified[j])
+//@   loop 1 invariant @C12 forall j Int :: 0 <= j && j < len(verified) ==> verified[j] != nil && ref(verified[j]) != 0
+//@   loop 1 invariant @C03 @C04 @C10 forall j Int :: 0 <= j && j < len(verified) ==> canAppendOK(b.access, verified[j]) && cidStr(contentHash(verified[j])) == hs(verified[j])
 //@   loop 1 invariant forall j Int :: 0 <= j && j < len(verified) ==> (exists k Int :: 0 <= k && k < $i && heads[k] == verified[j])
-//@   ensures result != nil ==> spawned_Load == 0
+//@   ensures @C04 @C10 result != nil ==> spawned_Load == 0
 //@   ensures spawned_Load <= 1
 //@   modifies "F:entry.Entry.Next", "F:entry.Entry.Refs"
 
@@ -58,6 +59,7 @@ package basestore
 // closed (an undecodable or rejected message must not stop later ones). Sync is called on this store.
 //@ func (*BaseStore).pubSubChanListener$2
 //@   props C12 C09 C10
+//@   safety C12
 //@   flag nilcalls
 //@   requires b != nil && b.messageMarshaler != nil && b.logger != nil
 //@   requires b.identity != nil && b.access != nil && b.options != nil && b.replicator != nil && b.tracer != nil && b.options.IO != nil
@@ -84,6 +86,7 @@ package basestore
 //  * failure: no write event; if the append itself was refused (non-writer) nothing at all changed.
 //@ func (*BaseStore).AddOperation
 //@   props C01 C03 C05 C06 C07 C16
+//@   safety C05 C16
 //@   flag nilcalls
 //@   requires wf(b) && op != nil && ref(op) != 0 && b.emitters.evtWrite != nil
 //@   requires statusProgress(b.replicationStatus) <= statusMax(b.replicationStatus)
@@ -92,18 +95,18 @@ package basestore
 //@   ghost W := b.emitters.evtWrite
 //@   ghost N0 := evCount(b.emitters.evtWrite)
 //@   ghost LH := dsKey("_localHeads")
-//@   assert @ before call b.emitters.evtWrite.Emit#1: synced(b) && dsHas(C)[LH] && len(headsDec(dsMap(C)[LH])) == 1 && hs(headsDec(dsMap(C)[LH])[0]) == hs(e) && ents(L)[e]
+//@   assert @ before call b.emitters.evtWrite.Emit#1: @C16 @C05 @C01 synced(b) && dsHas(C)[LH] && len(headsDec(dsMap(C)[LH])) == 1 && hs(headsDec(dsMap(C)[LH])[0]) == hs(e) && ents(L)[e]
 //@   ensures result1 == nil ==> result != nil && ref(result) != 0 && ents(L)[result] && !old(ents(L)[result]) && logLen(L) == old(logLen(L)) + 1
 //@   ensures result1 == nil ==> (forall x Iface :: old(ents(L)[x]) ==> ents(L)[x])
-//@   ensures result1 == nil ==> dsHas(C)[LH] && len(headsDec(dsMap(C)[LH])) == 1 && hs(headsDec(dsMap(C)[LH])[0]) == hs(result) && headsWF(dsMap(C)[LH])
-//@   ensures result1 == nil ==> synced(b)
-//@   ensures result1 == nil ==> evCount(W) == N0 + 1 && unbox(evLast(W), "V_stores_EventWrite").Entry == result
-//@   ensures result1 == nil ==> canAppendOK(acOf(L), result)
-//@   ensures result1 != nil ==> evCount(W) == N0
-//@   ensures result1 != nil && logLen(L) == old(logLen(L)) ==> ents(L) == old(ents(L)) && valsOf(L) == old(valsOf(L)) && dsMap(C) == old(dsMap(C)) && idxState(b.index) == old(idxState(b.index))
+//@   ensures @C05 result1 == nil ==> dsHas(C)[LH] && len(headsDec(dsMap(C)[LH])) == 1 && hs(headsDec(dsMap(C)[LH])[0]) == hs(result) && headsWF(dsMap(C)[LH])
+//@   ensures @C01 @C06 @C07 @C16 result1 == nil ==> synced(b)
+//@   ensures @C16 result1 == nil ==> evCount(W) == N0 + 1 && unbox(evLast(W), "V_stores_EventWrite").Entry == result
+//@   ensures @C03 result1 == nil ==> canAppendOK(acOf(L), result)
+//@   ensures @C16 result1 != nil ==> evCount(W) == N0
+//@   ensures @C03 @C05 result1 != nil && logLen(L) == old(logLen(L)) ==> ents(L) == old(ents(L)) && valsOf(L) == old(valsOf(L)) && dsMap(C) == old(dsMap(C)) && idxState(b.index) == old(idxState(b.index))
 //@   ensures statusProgress(b.replicationStatus) <= statusMax(b.replicationStatus)
-//@   ensures result1 == nil ==> (opHasKey(result) == (ptr(op, "operation.operation").Key != nil)) && (opHasKey(result) ==> opKey(result) == deref(ptr(op, "operation.operation").Key)) && opKind(result) == ptr(op, "operation.operation").Op && opValue(result) == ptr(op, "operation.operation").Value && opOK(result)
-//@   ensures result1 == nil && (forall i Int :: 0 <= i && i < len(ptr(op, "operation.operation").Docs) ==> ptr(op, "operation.operation").Docs[i] != nil) ==> opNDocs(result) == len(ptr(op, "operation.operation").Docs) && (forall i Int :: 0 <= i && i < opNDocs(result) ==> opDocKey(result, i) == ptr(ptr(op, "operation.operation").Docs[i], "operation.opDoc").Key && opDocVal(result, i) == ptr(ptr(op, "operation.operation").Docs[i], "operation.opDoc").Value)
+//@   ensures @C06 @C07 result1 == nil ==> (opHasKey(result) == (ptr(op, "operation.operation").Key != nil)) && (opHasKey(result) ==> opKey(result) == deref(ptr(op, "operation.operation").Key)) && opKind(result) == ptr(op, "operation.operation").Op && opValue(result) == ptr(op, "operation.operation").Value && opOK(result)
+//@   ensures @C07 result1 == nil && (forall i Int :: 0 <= i && i < len(ptr(op, "operation.operation").Docs) ==> ptr(op, "operation.operation").Docs[i] != nil) ==> opNDocs(result) == len(ptr(op, "operation.operation").Docs) && (forall i Int :: 0 <= i && i < opNDocs(result) ==> opDocKey(result, i) == ptr(ptr(op, "operation.operation").Docs[i], "operation.opDoc").Key && opDocVal(result, i) == ptr(ptr(op, "operation.operation").Docs[i], "operation.opDoc").Value)
 //@   modifies ents(b.oplog), valsOf(b.oplog), logLen(b.oplog), headsOf(b.oplog), dsMap(b.cache), dsHas(b.cache), idxState(b.index), idxFails(b.index), statusMax(b.replicationStatus), statusProgress(b.replicationStatus), evCount(b.emitters.evtWrite), evLast(b.emitters.evtWrite), "G:sent:Iface"
 
 // replicationLoadComplete (a batch of fetched logs): every log of the batch is offered to Join whatever
@@ -112,6 +115,7 @@ package basestore
 // once, and only after the view was re-derived and the merged heads were persisted (C01 C05 C16).
 //@ func (*BaseStore).replicationLoadComplete
 //@   props C01 C04 C05 C06 C07 C08 C10 C16
+//@   safety C10 C16
 //@   flag nilcalls
 //@   requires wf(b) && b.emitters.evtReplicated != nil
 //@   requires statusProgress(b.replicationStatus) <= statusMax(b.replicationStatus)
@@ -126,17 +130,18 @@ package basestore
 //@   loop 1 frame ents(L), valsOf(L), logLen(L), headsOf(L), joinCalls(L)
 //@   loop 1 invariant oplog == L && joinCalls(L) == J0 + $i
 //@   loop 1 invariant? joined >= 0 && (joined == 0 ==> valsOf(L) == old(valsOf(L)) && idxState(b.index) == old(idxState(b.index)))
-//@   loop 1 invariant forall x Iface :: old(ents(L)[x]) ==> ents(L)[x]
-//@   loop 1 invariant forall j Int :: 0 <= j && j < len(entries) ==> ents(L)[entries[j]]
+//@   loop 1 invariant @C08 @C04 @C10 forall x Iface :: old(ents(L)[x]) ==> ents(L)[x]
+//@   loop 1 invariant @C16 forall j Int :: 0 <= j && j < len(entries) ==> ents(L)[entries[j]]
 //@   loop 1 invariant evCount(R) == N0 && statusProgress(b.replicationStatus) <= statusMax(b.replicationStatus)
-//@   assert @ before call oplog.Join#1: prov(log) != 0 && logID(log) == logID(oplog) && acOf(log) == acOf(oplog)
-//@   assert @ before call b.emitters.evtReplicated.Emit#1: forall j Int :: 0 <= j && j < len(entries) ==> ents(L)[entries[j]]
-//@   assert @ before call b.emitters.evtReplicated.Emit#1: synced(b) && dsHas(C)[RH] && len(headsDec(dsMap(C)[RH])) == len(headsOf(L)) && (forall j Int :: 0 <= j && j < len(headsOf(L)) ==> hs(headsDec(dsMap(C)[RH])[j]) == hs(headsOf(L)[j]))
-//@   ensures joinCalls(L) == J0 + len(logs)
-//@   ensures forall x Iface :: old(ents(L)[x]) ==> ents(L)[x]
-//@   ensures evCount(R) == N0 || evCount(R) == N0 + 1
-//@   ensures evCount(R) == N0 + 1 ==> synced(b) && dsHas(C)[RH]
-//@   ensures (old(synced(b)) ==> synced(b)) || idxFails(b.index) > old(idxFails(b.index))
+//@   assert @ before call oplog.Join#1: @C04 prov(log) != 0 && logID(log) == logID(oplog) && acOf(log) == acOf(oplog)
+//@   assert @ before call b.emitters.evtReplicated.Emit#1: @C16 forall j Int :: 0 <= j && j < len(entries) ==> ents(L)[entries[j]]
+//@   assert @ before call b.emitters.evtReplicated.Emit#1: @C01 @C06 @C07 @C16 synced(b)
+//@   assert @ before call b.emitters.evtReplicated.Emit#1: @C05 @C01 dsHas(C)[RH] && len(headsDec(dsMap(C)[RH])) == len(headsOf(L)) && (forall j Int :: 0 <= j && j < len(headsOf(L)) ==> hs(headsDec(dsMap(C)[RH])[j]) == hs(headsOf(L)[j]))
+//@   ensures @C10 joinCalls(L) == J0 + len(logs)
+//@   ensures @C08 @C04 @C10 forall x Iface :: old(ents(L)[x]) ==> ents(L)[x]
+//@   ensures @C16 evCount(R) == N0 || evCount(R) == N0 + 1
+//@   ensures @C16 @C05 @C01 evCount(R) == N0 + 1 ==> synced(b) && dsHas(C)[RH]
+//@   ensures @C01 @C06 @C07 (old(synced(b)) ==> synced(b)) || idxFails(b.index) > old(idxFails(b.index))
 //@   ensures statusProgress(b.replicationStatus) <= statusMax(b.replicationStatus)
 //@   modifies ents(b.oplog), valsOf(b.oplog), logLen(b.oplog), headsOf(b.oplog), joinCalls(b.oplog), dsMap(b.cache), dsHas(b.cache), idxState(b.index), idxFails(b.index), statusMax(b.replicationStatus), statusProgress(b.replicationStatus), evCount(b.emitters.evtReplicated), evLast(b.emitters.evtReplicated)
 
@@ -145,6 +150,7 @@ package basestore
 // heads never stops early; on success with cached heads the view is re-derived before the ready event.
 //@ func (*BaseStore).Load
 //@   props C15 C05 C01 C16 C04 C03
+//@   safety C15
 //@   flag nilcalls
 //@   flag inline-go$2
 //@   requires wf(b) && b.emitters.evtLoad != nil && b.emitters.evtReady != nil && b.emitters.evtLoadProgress != nil
@@ -157,10 +163,10 @@ package basestore
 //@   loop 2 noexit
 //@   loop 2 invariant amount == lim && statusProgress(b.replicationStatus) <= statusMax(b.replicationStatus) && b.oplog == L
 //@   loop 2 invariant forall j Int :: 0 <= j && j < len(heads) ==> heads[j] != nil && heads[j].Clock != nil
-//@   assert @ before call ipfslog.NewFromEntryHash#1: amount == lim
-//@   assert @ before call oplog.Join#1: logID(boxptr(l, "berty.tech/go-ipfs-log.IPFSLog")) == logID(oplog) && acOf(boxptr(l, "berty.tech/go-ipfs-log.IPFSLog")) == b.access && prov(boxptr(l, "berty.tech/go-ipfs-log.IPFSLog")) != 0
-//@   assert @ before call b.emitters.evtReady.Emit#1: len(heads) > 0 ==> synced(b)
-//@   ensures result == nil && len(heads) > 0 ==> synced(b)
+//@   assert @ before call ipfslog.NewFromEntryHash#1: @C15 amount == lim
+//@   assert @ before call oplog.Join#1: @C04 @C03 logID(boxptr(l, "berty.tech/go-ipfs-log.IPFSLog")) == logID(oplog) && acOf(boxptr(l, "berty.tech/go-ipfs-log.IPFSLog")) == b.access && prov(boxptr(l, "berty.tech/go-ipfs-log.IPFSLog")) != 0
+//@   assert @ before call b.emitters.evtReady.Emit#1: @C01 @C05 @C16 @C15 len(heads) > 0 ==> synced(b)
+//@   ensures @C01 @C05 @C16 @C15 result == nil && len(heads) > 0 ==> synced(b)
 
 // handleEventWrite (C09): a store announces only write events of its own address, under its own address,
 // with the heads carried by the event; anything else is ignored (the event bus is shared by the instance).
@@ -212,14 +218,15 @@ package basestore
 //@ func (*BaseStore).InitBaseStore
 //@   props C09 C03 C04
 //@   flag no-safety
-//@   assert @ before call options.Index#1: acOf(b.oplog) == b.access && logID(b.oplog) == addrStr(addr)
-//@   assert @ before call b.replicator.EventBus().Subscribe#1: freshBus(replBus(b.replicator))
+//@   assert @ before call options.Index#1: @C03 @C04 @C09 acOf(b.oplog) == b.access && logID(b.oplog) == addrStr(addr)
+//@   assert @ before call b.replicator.EventBus().Subscribe#1: @C09 freshBus(replBus(b.replicator))
 
 // LoadFromSnapshot (C13 C08 C01): record lengths read from the file are 16-bit, so every allocation is
 // valid whatever the file says; the rebuilt log is joined untrimmed (nothing already merged is removed);
 // on success the view is the replay of the log.
 //@ func (*BaseStore).LoadFromSnapshot
 //@   props C13 C08 C01
+//@   safety C13
 //@   flag nilcalls
 //@   requires wf(b) && b.emitters.evtLoad != nil && b.ipfs != nil && b.address != nil && b.options.IO != nil
 //@   requires statusProgress(b.replicationStatus) <= statusMax(b.replicationStatus)
@@ -229,8 +236,8 @@ package basestore
 //@   loop 3 invariant true
 //@   assume @ before call e.Clock.GetTime#1: e.Clock != nil
 //@   assume @ loop 3 body: h != nil
-//@   ensures result == nil ==> synced(b)
-//@   ensures forall x Iface :: old(ents(L)[x]) ==> ents(L)[x]
+//@   ensures @C01 @C13 result == nil ==> synced(b)
+//@   ensures @C08 @C13 forall x Iface :: old(ents(L)[x]) ==> ents(L)[x]
 
 // SaveSnapshot (C13): never panics; every recorded 16-bit length equals the real length (the conversions
 // are value preserving: larger records are refused with an error); on success the header records as many
